@@ -220,5 +220,118 @@ theorem relLoop_chain_gen (W : World) (v : Variant) (first hi : Nat) (p0 : Optio
                                   · exact ih newQ st _ hinvN h j hjn hjp
                                   · cases h
 
+/-! ## `LoadState`'s own chain -/
+
+/-- invariant of `chainStates` over an ascending list that holds every policy entry of `[m, hi]` -/
+structure CInv (W : World) (f0 hi : Nat) (P0 : Policy) (m : Nat) (js : List Nat) (cur : Policy) : Prop where
+  hf : f0 < m
+  hm : m ≤ hi + 1
+  sorted : js.Pairwise (· < ·)
+  bounds : ∀ k ∈ js, m ≤ k ∧ k ≤ hi
+  upd : ∀ k ∈ js, ∀ e, W.log[k]? = some e → isUpdater e = true
+  complete : ∀ k, m ≤ k → k ≤ hi → W.isPolK f0 k = true → k ∈ js
+  pol : some cur = W.polInForce f0 (some P0) m
+
+theorem CInv.noneBelowHead {W : World} {f0 hi : Nat} {P0 : Policy} {m a : Nat} {rest : List Nat} {cur : Policy}
+    (h : CInv W f0 hi P0 m (a :: rest) cur) : ∀ k, m ≤ k → k < a → W.isPolK f0 k = false := by
+  intro k hk1 hk2
+  have hs := List.pairwise_cons.mp h.sorted
+  have hahi := (h.bounds a List.mem_cons_self).2
+  cases hp : W.isPolK f0 k with
+  | false => rfl
+  | true =>
+    rcases List.mem_cons.mp (h.complete k hk1 (by omega) hp) with hk | hk
+    · omega
+    · have := hs.1 k hk; omega
+
+theorem CInv.atHead {W : World} {f0 hi : Nat} {P0 : Policy} {m a : Nat} {rest : List Nat} {cur : Policy}
+    (h : CInv W f0 hi P0 m (a :: rest) cur) : some cur = W.polInForce f0 (some P0) a := by
+  have hma := (h.bounds a List.mem_cons_self).1
+  rw [h.pol]; unfold polInForce
+  rw [lastBelow_run' (W.isPolK f0) m a hma h.noneBelowHead]
+
+theorem CInv.tail {W : World} {f0 hi : Nat} {P0 : Policy} {m a : Nat} {rest : List Nat} {cur nxt : Policy}
+    (h : CInv W f0 hi P0 m (a :: rest) cur) (hp : some nxt = W.polInForce f0 (some P0) (a + 1)) :
+    CInv W f0 hi P0 (a + 1) rest nxt := by
+  have hs := List.pairwise_cons.mp h.sorted
+  have hma := (h.bounds a List.mem_cons_self).1
+  have hf := h.hf
+  have hahi := (h.bounds a List.mem_cons_self).2
+  refine ⟨by omega, by omega, hs.2, ?_, fun k hk => h.upd k (List.mem_cons_of_mem _ hk), ?_, hp⟩
+  · intro k hk
+    have := hs.1 k hk
+    exact ⟨by omega, (h.bounds k (List.mem_cons_of_mem _ hk)).2⟩
+  · intro k hk1 hk2 hk3
+    rcases List.mem_cons.mp (h.complete k (by omega) hk2 hk3) with hk | hk
+    · omega
+    · exact hk
+
+/-- **`LoadState`'s chain is unbroken and exact**: if chaining over an ascending, complete list of
+entries succeeds, every policy entry in it was accepted by `VerifyNewState` of the state recorded
+by the policy entry immediately before it (the starting state for the first), and the result is
+the state recorded by the last policy entry. -/
+theorem chainStates_exact (W : World) (hpo : W.PolicyRefOnly) (f0 hi : Nat) (P0 : Policy) :
+    ∀ (js : List Nat) (cur last : Policy) (m : Nat),
+      CInv W f0 hi P0 m js cur → W.chainStates js cur = .ok last →
+      (∀ k ∈ js, W.isPolK f0 k = true → ∃ nxt, W.loadRaw k = .ok nxt ∧
+        ∀ c, W.polInForce f0 (some P0) k = some c → c.verifyNewState nxt = .ok ()) ∧
+      some last = W.polInForce f0 (some P0) (hi + 1) := by
+  intro js
+  induction js with
+  | nil =>
+    intro cur last m hinv h
+    simp only [chainStates, Except.ok.injEq] at h
+    subst h
+    refine ⟨fun k hk _ => absurd hk (by simp), ?_⟩
+    rw [hinv.pol]; unfold polInForce
+    rw [lastBelow_run' (W.isPolK f0) m (hi + 1) hinv.hm (fun k h1 h2 => by
+      cases hp : W.isPolK f0 k with
+      | false => rfl
+      | true => exact absurd (hinv.complete k h1 (by omega) hp) (by simp))]
+  | cons a rest ih =>
+    intro cur last m hinv h
+    unfold chainStates at h
+    split at h
+    · cases h
+    · rename_i ea hea
+      have hupd := hinv.upd a List.mem_cons_self ea hea
+      have hfa : f0 < a := by have := (hinv.bounds a List.mem_cons_self).1; have := hinv.hf; omega
+      split at h
+      · rename_i hne
+        have hnr : ea.ref ≠ policyRef := by simpa using hne
+        have hpa : W.isPolK f0 a = false := isPolK_false_of_ref hea hnr
+        have hnext : CInv W f0 hi P0 (a + 1) rest cur := hinv.tail (by
+          rw [hinv.atHead]; unfold polInForce; rw [lastBelow_step_neg _ a hpa])
+        obtain ⟨h1, h2⟩ := ih cur last _ hnext h
+        refine ⟨?_, h2⟩
+        intro k hk hkp
+        rcases List.mem_cons.mp hk with hk | hk
+        · subst hk; rw [hpa] at hkp; cases hkp
+        · exact h1 k hk hkp
+      · rename_i hisr
+        have hr : ea.ref = policyRef := by simpa using hisr
+        have hkind : ea.kind = .ref := hpo a ea hea hr hupd
+        have hpa : W.isPolK f0 a = true := by simp [isPolK, hea, hkind, hr, hfa]
+        split at h
+        · cases h
+        · rename_i nxt hnxt
+          split at h
+          · cases h
+          · rename_i hvn
+            have hvn' := liftP_ok _ _ hvn
+            have hnext : CInv W f0 hi P0 (a + 1) rest nxt := hinv.tail (by
+              simp only [polInForce, lastBelow_step_pos _ a hpa, hnxt])
+            obtain ⟨h1, h2⟩ := ih nxt last _ hnext h
+            refine ⟨?_, h2⟩
+            intro k hk hkp
+            rcases List.mem_cons.mp hk with hk | hk
+            · subst hk
+              refine ⟨nxt, hnxt, ?_⟩
+              intro c hc
+              rw [← hinv.atHead] at hc
+              cases hc
+              exact hvn'
+            · exact h1 k hk hkp
+
 end World
 end Gittuf
